@@ -51,32 +51,33 @@ func c13Run(ctx *core.Ctx) {
 	core.RunCases(ctx, func(emit func(c13Case)) {
 		idx := 0
 		var lists [][]string
-		core.Strings([]string{"a", "b"}, 4, func(parts []string) {
+		alphabet, maxList := []string{"a", "b"}, 4
+		if ctx.Thorough() {
+			alphabet, maxList = []string{"a", "b", "c"}, 5 // 363 lists over three addresses
+		}
+		core.Strings(alphabet, maxList, func(parts []string) {
 			if len(parts) > 0 {
 				lists = append(lists, append([]string{}, parts...))
 			}
 		})
 		for _, rc := range lists {
-			na, nb := 0, 0
+			cnt := map[string]int{}
 			for _, r := range rc {
-				if r == "a" {
-					na++
-				} else {
-					nb++
-				}
+				cnt[r]++
 			}
 			var seqs [][]string
-			var rec func(cur []string, ca, cb int)
-			rec = func(cur []string, ca, cb int) {
+			var rec func(cur []string, used map[string]int)
+			rec = func(cur []string, used map[string]int) {
 				seqs = append(seqs, append([]string{}, cur...))
-				if ca < na {
-					rec(append(cur, "a"), ca+1, cb)
-				}
-				if cb < nb {
-					rec(append(cur, "b"), ca, cb+1)
+				for _, a := range alphabet {
+					if used[a] < cnt[a] {
+						used[a]++
+						rec(append(cur, a), used)
+						used[a]--
+					}
 				}
 			}
-			rec(nil, 0, 0)
+			rec(nil, map[string]int{})
 			for _, sq := range seqs {
 				for _, transfer := range []string{"data", "bdat1", "bdat3"} {
 					for _, ret := range []bool{false, true} {
